@@ -220,7 +220,13 @@ def _f_env_plain_b():
 
 
 def _f_env_range_later():        # derived copies AFTER the Env itself was formatted by another definition
-    Out.kr(0, [_envgen(_env('b').range(-1, 1)), _envgen(_env('c').exprange(1, 10)), _envgen(_env('b').curverange(3, 4, -2))])
+    Out.kr(0, [_envgen(_env('b').range(-1, 1)), _envgen(_env('c').exprange(1, 10)), _envgen(_env('b').range(3, 4))])
+
+
+def _f_env_curverange_interior():
+    # raises the same TypeError in every history on the unmodified library (observation lincurve_pow): a build
+    # that raises is an OUTCOME, compared between histories like bytes
+    Out.kr(0, _envgen(_env('b').curverange(3, 4, -2)))
 
 
 def _g_env_used_then_raises():
@@ -318,6 +324,7 @@ def good():
         ('env_plain_b', lambda: SynthDef('x_envb', _f_env_plain_b)),
         ('env_range_later', lambda: SynthDef('x_envr2', _f_env_range_later)),
         ('env_after_failed_use', lambda: SynthDef('x_envf', _f_env_after_failed_use)),
+        ('env_curverange_interior', lambda: SynthDef('x_envcv', _f_env_curverange_interior)),
         ('env_setter_history', _build_env_history),
         ('nodefault', _plain('x_nodef', _f_nodefault)),
         ('plain_three', _plain('x_plain3', _f_three)),
